@@ -213,10 +213,11 @@ def extract(repo):
 
     # ---- switches -------------------------------------------------------------------------------------------------
     sw = _body(code_c, r"\bvoid\s+ERRORset_warning\s*\(\s*char\s*\*\s*name\s*,\s*bool\s+warn_only\s*\)\s*\{")
-    m = re.search(r"if\s*\(\s*err->severity\s*<=\s*SEVERITY_WARNING\s*&&\s*(err->name\s*(?:!=\s*NULL\s*)?&&\s*)?!\s*strcmp\s*\(\s*err->name\s*,\s*name\s*\)\s*\)\s*\{\s*found\s*=\s*true\s*;\s*err->override\s*=\s*warn_only\s*;", sw)
+    m = re.search(r"if\s*\(\s*(err->severity\s*<=\s*SEVERITY_WARNING\s*&&\s*)?(err->name\s*(?:!=\s*NULL\s*)?&&\s*)?!\s*strcmp\s*\(\s*err->name\s*,\s*name\s*\)\s*\)\s*\{\s*found\s*=\s*true\s*;\s*err->override\s*=\s*warn_only\s*;", sw)
     if not m:
         raise ValueError("ERRORset_warning: class test not in the expected form")
-    null_guard = m.group(1) is not None
+    severity_guard = m.group(1) is not None
+    null_guard = m.group(2) is not None
     if not re.search(r"for\s*\(\s*unsigned\s+int\s+errnum\s*=\s*0\s*;\s*errnum\s*<\s*\(\s*sizeof\s+LibErrors\s*/\s*sizeof\s+LibErrors\s*\[\s*0\s*\]\s*\)", sw):
         raise ValueError("ERRORset_warning: loop over the whole table (from index 0) not found")
     if not re.search(r"if\s*\(\s*!\s*found\s*\)\s*\{\s*fprintf\s*\(\s*stderr\s*,\s*\"unknown warning: %s\\n\"", sw):
@@ -318,6 +319,8 @@ def extract(repo):
           f"def withLineForwardsVaList : Bool := {'true' if forwards_va_list else 'false'}",
           "/-- `ERRORset_warning` tests `err->name` for NULL before `strcmp` -/",
           f"def setWarningNullGuard : Bool := {'true' if null_guard else 'false'}",
+          "/-- `ERRORset_warning` only touches entries of severity <= SEVERITY_WARNING -/",
+          f"def setWarningSeverityGuard : Bool := {'true' if severity_guard else 'false'}",
           "/-- prefix of a positioned ERROR / WARNING message (printf format: file, line, code) -/",
           f"def prefixError : String := {_lean_str(pe.pop())}",
           f"def prefixWarning : String := {_lean_str(pw.pop())}",
